@@ -36,7 +36,9 @@ func Shape(e error) *Node {
 	} else if cs := errbase.UnwrapMulti(e); len(cs) > 0 {
 		n.Multi = true
 		for _, c := range cs {
-			n.Kids = append(n.Kids, Shape(c))
+			if c != nil { // (a user type may list nil causes)
+				n.Kids = append(n.Kids, Shape(c))
+			}
 		}
 	}
 	return n
